@@ -223,6 +223,8 @@ structure CInfo where
   closedOwn : Bool := false
   /-- `getattr(cls, "_additional_properties")` is `False` (own or inherited) -/
   closedAny : Bool := false
+  /-- the identity of the class object (the process-wide mapper cache is keyed by it) -/
+  cid : String := ""
 deriving Repr, Inhabited
 
 def CInfo.desL (ci : CInfo) : List Mapper := ci.des.getD ci.ser
@@ -242,6 +244,7 @@ structure Cls where
   des : Option (List Mapper) := none
   closedOwn : Bool := false
   closedAny : Bool := false
+  cid : String := ""
 deriving Repr, Inhabited
 
 def Cls.desL (c : Cls) : List Mapper := c.des.getD c.own
@@ -295,6 +298,40 @@ def cachedAggregate (S : StrFns) (cache : Cache) (cid ovKey : String) (own : Lis
   | none =>
     (aggregate S true own fields ov camel,
      cache ++ [((cid, ovKey, camel), aggregate S true own fields ov camel)])
+
+mutual
+/-- `_set_base_mapper_no_op(cls, for_serialization=True)` as executed: every nested class's own
+    aggregate is asked from `aggregate_serialization_mappers(nested_cls)` — answered from the cache if
+    filed there, else computed (recursively, filling the cache) and filed under `(nested_cls, "", False)` -/
+def cBaseFields (S : StrFns) : Cache → List Fld → MDict × Cache
+  | cache, [] => ([], cache)
+  | cache, f :: rest =>
+    let r1 := cBaseFld S cache f
+    let r2 := cBaseFields S r1.2 rest
+    (r1.1 ++ r2.1, r2.2)
+termination_by structural _ fs => fs
+def cBaseFld (S : StrFns) : Cache → Fld → MDict × Cache
+  | cache, .scalar n _ => ([(.fld n, .key n)], cache)
+  | cache, .nested n _ _ ci fs =>
+    match lookupR (ci.cid, "", false) cache with
+    | some m => ([(.nest n, .sub m), (.fld n, .key n)], cache)
+    | none =>
+      let b := cBaseFields S cache fs
+      let m := foldAdd S true ci.ser b.1
+      ([(.nest n, .sub m), (.fld n, .key n)], b.2 ++ [((ci.cid, "", false), m)])
+termination_by structural _ f => f
+end
+
+/-- `aggregate_serialization_mappers(cls, override, camel_case_convert)` as executed, the entries filed
+    for nested classes while building the base mapper included -/
+def cAggregate (S : StrFns) (cache : Cache) (me ovKey : String) (own : List Mapper)
+    (fields : List Fld) (ov : Option MDict) (camel : Bool) : MDict × Cache :=
+  match lookupR (me, ovKey, camel) cache with
+  | some m => (m, cache)
+  | none =>
+    let b := cBaseFields S cache fields
+    let m := foldAdd S true (effList own ov camel) b.1
+    (m, b.2 ++ [((me, ovKey, camel), m)])
 
 /-- one class's `_serialization_mapper` attribute -/
 inductive ClassAttr where
